@@ -61,6 +61,8 @@ func pipelineVia(s, d *sp.API, p color.NRGBA, via string) (out [3]float64, alpha
 	xyz := s.ToXYZ(c)
 	if via == "adapt-xyz-constants" && s.White() != d.White() {
 		xyz = ciexyz.AdaptBetweenXYZWhitePoints(whiteConst(s), whiteConst(d)).Apply(xyz)
+	} else if via == "adapt-white-from-space" && s.White() != d.White() {
+		xyz = ciexyz.AdaptBetweenXYZWhitePoints(whiteOf(s), whiteOf(d)).Apply(xyz)
 	} else if s.White() != d.White() || via == "adapt-always" {
 		xyz = ciexyz.AdaptBetweenXYYWhitePoints(s.White(), d.White()).Apply(xyz)
 	}
@@ -85,6 +87,10 @@ func whiteConst(a *sp.API) ciexyz.Color {
 	}
 	return ciexyz.D65
 }
+
+// whiteOf: the XYZ a space itself gives for its white (1,1,1) - what a caller writes who does not want to name an
+// illuminant (float32 arithmetic: Y comes out as 1 or a neighbour of 1)
+func whiteOf(a *sp.API) ciexyz.Color { return a.ToXYZ(a.FromLinear(1, 1, 1)) }
 
 func pipeline(s, d *sp.API, p color.NRGBA) color.NRGBA {
 	c, alpha := s.FromNRGBA(p)
@@ -159,6 +165,10 @@ func check(c Case) (kind, what string, nt bool) {
 		return "panic", msg, true
 	}
 	m := pr.m
+	if c.Via == "adapt-white-from-space" && pr.adapt {
+		ws, wd := whiteOf(s), whiteOf(d)
+		m = pr.mdi.Mul(ref.Bradford(ref.V3{float64(ws.X), float64(ws.Y), float64(ws.Z)}, ref.V3{float64(wd.X), float64(wd.Y), float64(wd.Z)})).Mul(pr.ms)
+	}
 	if c.Via == "adapt-xyz-constants" && pr.adapt {
 		// the same pipeline with the adaptation built between the package's XYZ white constants
 		ws, wd := whiteConst(s), whiteConst(d)
@@ -213,7 +223,8 @@ func viaNote(v string) string {
 // "adapt-always": the default constructors, with the adaptation step applied whether or not the white points differ
 // (between equal whites it is the identity)
 // "adapt-xyz-constants": the adaptation built with AdaptBetweenXYZWhitePoints from ciexyz.D50 / ciexyz.D65
-var vias = []string{"rgba", "encoded", "encoded64", "adapt-always", "adapt-xyz-constants"}
+// "adapt-white-from-space": the adaptation built from the XYZ each space gives for its own white
+var vias = []string{"rgba", "encoded", "encoded64", "adapt-always", "adapt-xyz-constants", "adapt-white-from-space"}
 
 func TestC04(t *testing.T) {
 	if ev.Replaying() != nil {
@@ -240,7 +251,7 @@ func TestC04(t *testing.T) {
 		fmt.Println("REPLAY case passed:", c)
 		return
 	}
-	ev.Rule("16 ordered (source,destination) pairs x NRGBA pixels through the README pipeline (opaque pixels also through ColorFromRGBA/ToRGBA, ColorFromEncodedColor of NRGBA and NRGBA64, ToRGBA64, with the adaptation step applied unconditionally - the identity between equal whites - and with the adaptation built from the package's XYZ white constants). quick: 64^3 lattice incl. 0 and 255, all greys, the six cube faces at stride 3, all 256 alphas on 64 colours, rapid pixels; thorough: all 2^24 RGB at alpha 255 per pair plus 256 alphas x 4096 colours. non-trivial = distinct (pair, pixel) whose reference result is out of gamut in some channel or whose pair needs chromatic adaptation")
+	ev.Rule("16 ordered (source,destination) pairs x NRGBA pixels through the README pipeline (opaque pixels also through ColorFromRGBA/ToRGBA, ColorFromEncodedColor of NRGBA and NRGBA64, ToRGBA64, with the adaptation step applied unconditionally - the identity between equal whites - with the adaptation built from the package's XYZ white constants, and from the XYZ each space gives for its own white). quick: 64^3 lattice incl. 0 and 255, all greys, the six cube faces at stride 3, all 256 alphas on 64 colours, rapid pixels; thorough: all 2^24 RGB at alpha 255 per pair plus 256 alphas x 4096 colours. non-trivial = distinct (pair, pixel) whose reference result is out of gamut in some channel or whose pair needs chromatic adaptation")
 	ev.Assume("internal/ref EOTF/OETF, matrix derivation from the declared chromaticities, Bradford adaptation")
 	ev.Set("interval", map[string]float64{"half_step": halfStep, "half_code": 0.5, "slack_codes": slack})
 	var sampleMu sync.Mutex
